@@ -28,6 +28,7 @@ from pyvc.symcoll import SymSet
 from contracts.common import mk, cls, func, new, run, Recorder, Stub, std_result, collect
 
 MGR, MODEL, SUTIL, SMODEL = 'shares.manager', 'shares.model', 'shares.utils', 'search.model'
+SMODEL_SHARES = 'shares.model'
 QUERY = f'{MGR}:SharesManager.query'
 S, I, B = z3.StringSort(), z3.IntSort(), z3.BoolSort()
 
@@ -829,8 +830,506 @@ def prove_query(src_root, ex: Explorer):
     ex.run(path, 'query')
 
 
+# ---------------------------------------------------------------------------
+# term map maintenance
+
+ADD = f'{MGR}:SharesManager._add_item_to_term_map'
+BUILD = f'{MGR}:SharesManager._build_term_map'
+REBUILD = f'{MGR}:SharesManager.rebuild_term_map'
+CLEANUP = f'{MGR}:SharesManager._cleanup_term_map'
+SCANF = f'{MGR}:SharesManager.scan_directory_files'
+LOWER = z3.Function('str_lower', S, S)
+
+
+def words_of(w: World, sub, fn):
+    """definition of WORDS: the non-empty pieces of (subdir + "/" + filename).lower()"""
+    return w.PIECES(LOWER(z3.Concat(sub, z3.StringVal('/'), fn)))
+
+
+def install_weakset(it):
+    it.natives['weakref.WeakSet'] = Native('weakref.WeakSet', lambda it2, a, k: TermSet(None, None, fresh_empty=True) if not a else
+                                           (_ for _ in ()).throw(Unsupported('WeakSet(iterable)')))
+
+
+def prove_termmap(src_root, ex: Explorer):
+    def add(ctx: Ctx):
+        """_add_item_to_term_map(item): every non-empty piece of the lower-cased path becomes a key whose set contains the item;
+        nothing else changes (frame)"""
+        it = mk(src_root, ctx)
+        w = World(ctx)
+        install(it, ctx, w)
+        install_weakset(it)
+        tm = TermMap(w)
+        x = ctx.fresh_int('item')
+        sub, fn = ctx.fresh_str('subdir'), ctx.fresh_str('filename')
+        item = new(it, SMODEL_SHARES, 'SharedItem', subdir=Sym(sub, 'str'), filename=Sym(fn, 'str'))
+        item.pyvc_term = x
+        mgr = new(it, MGR, 'SharesManager', _term_map=tm)
+        seen = []
+
+        def loop(it2, node, env):
+            pcs = it2.eval(node.iter, env)
+            ok = isinstance(pcs, Pieces)
+            ctx.prove('C07.termmap.add.path', ok and pcs.t == LOWER(z3.Concat(sub, z3.StringVal('/'), fn)),
+                      'the indexed words must be the pieces of (subdir + "/" + filename).lower()', use_lemmas=False)
+            if not ok:
+                raise PathAbort()
+            term = ctx.fresh_str('piece')
+            ctx.assume(z3.Or(term == z3.StringVal(''), z3.IsMember(term, w.PIECES(pcs.t))))
+            K0, IN0 = tm.KEYS, tm.IN
+            it2.assign(node.target, Sym(term, 'str'), env)
+            try:
+                it2.exec_block(node.body, env)
+            except ContinueEx:
+                pass
+            old = z3.If(z3.IsMember(term, K0), z3.Select(IN0, term), z3.EmptySet(I))
+            ctx.prove('C07.termmap.add.iteration', z3.If(term == z3.StringVal(''), z3.And(tm.KEYS == K0, tm.IN == IN0),
+                                                         z3.And(tm.KEYS == z3.SetAdd(K0, term), tm.IN == z3.Store(IN0, term, z3.SetAdd(old, x)))),
+                      'a non-empty word must become a key whose set gains exactly the item; nothing else may change', use_lemmas=False)
+            seen.append(1)
+        it.loop_specs[(ADD, 0)] = loop
+        try:
+            it.call(it.getattr(mgr, '_add_item_to_term_map'), [item], {})
+        except PyRaise as pr:
+            ctx.fail('C07.termmap.add.no-raise', repr(pr.exc), use_lemmas=False)
+            return
+        ctx.prove('C07.termmap.add.loops-over-pieces', len(seen) == 1, use_lemmas=False)
+    ex.run(add, 'termmap-add')
+
+    def build(ctx: Ctx):
+        """_build_term_map(d): _add_item_to_term_map is applied to exactly the items of d"""
+        it = mk(src_root, ctx)
+        w = World(ctx)
+        install(it, ctx, w)
+        items = z3.Const('items_d', z3.SetSort(I))
+        d = new(it, SMODEL_SHARES, 'SharedDirectory', items=SymSet(items, I))
+        calls = []
+        it.hooks[ADD] = lambda it2, f, a, k: calls.append(a[1])
+        mgr = new(it, MGR, 'SharesManager', _term_map=TermMap(w))
+        x = ctx.fresh_int('x')
+        ctx.assume(z3.IsMember(x, items))
+        seen = []
+
+        def loop(it2, node, env):
+            src = it2.eval(node.iter, env)
+            ctx.prove('C07.termmap.build.iterates-items', isinstance(src, SymSet) and z3.eq(src.term, items), use_lemmas=False)
+            it2.assign(node.target, Item(w, x), env)
+            it2.exec_block(node.body, env)
+            seen.append(1)
+        it.loop_specs[(BUILD, 0)] = loop
+        it.call(it.getattr(mgr, '_build_term_map'), [d], {})
+        ctx.prove('C07.termmap.build.adds-each-item', len(seen) == 1 and len(calls) == 1 and isinstance(calls[0], Item) and z3.eq(calls[0].pyvc_term, x),
+                  'every item of the directory must be added to the term map, exactly it', use_lemmas=False)
+    ex.run(build, 'termmap-build')
+
+    def rebuild(ctx: Ctx):
+        """rebuild_term_map(): starts from an EMPTY map and applies _build_term_map to exactly the shared directories"""
+        it = mk(src_root, ctx)
+        w = World(ctx)
+        install(it, ctx, w)
+        dirs = DirList(ctx)
+        calls = []
+        it.hooks[BUILD] = lambda it2, f, a, k: calls.append(a[1])
+        mgr = new(it, MGR, 'SharesManager', _term_map=TermMap(w), _shared_directories=dirs)
+        d = Stub('arbitrary shared directory')
+        seen = []
+
+        def loop(it2, node, env):
+            src = it2.eval(node.iter, env)
+            tmv = mgr.attrs['_term_map']
+            ctx.prove('C07.termmap.rebuild.starts-empty', isinstance(tmv, dict) and not tmv, 'the old term map must be discarded', use_lemmas=False)
+            ctx.prove('C07.termmap.rebuild.iterates-directories', src is dirs, use_lemmas=False)
+            it2.assign(node.target, d, env)
+            it2.exec_block(node.body, env)
+            seen.append(1)
+        it.loop_specs[(REBUILD, 0)] = loop
+        it.call(it.getattr(mgr, 'rebuild_term_map'), [], {})
+        ctx.prove('C07.termmap.rebuild.builds-each-directory', len(seen) == 1 and calls == [d], use_lemmas=False)
+    ex.run(rebuild, 'termmap-rebuild')
+
+    def cleanup(ctx: Ctx):
+        """_cleanup_term_map(): drops exactly the keys whose set is empty; the kept entries are unchanged"""
+        it = mk(src_root, ctx)
+        w = World(ctx)
+        install(it, ctx, w)
+        tm = TermMap(w)
+        mgr = new(it, MGR, 'SharesManager', _term_map=tm)
+        seen = []
+
+        def comp(it2, node, env):
+            src = it2.eval(node.generators[0].iter, env)
+            ctx.prove('C07.termmap.cleanup.iterates-entries', isinstance(src, ItemsView) and src.tm is tm and len(node.generators) == 1, use_lemmas=False)
+            t = ctx.fresh_str('term')
+            ctx.assume(z3.IsMember(t, tm.KEYS))
+            cenv = _child_env(env)
+            it2.assign(node.generators[0].target, (Sym(t, 'str'), TermSet(tm, t)), cenv)
+            keep = z3.And(*[it2.truth(it2.eval(c, cenv)) for c in node.generators[0].ifs]) if node.generators[0].ifs else z3.BoolVal(True)
+            key, val = it2.eval(node.key, cenv), it2.eval(node.value, cenv)
+            ctx.prove('C07.termmap.cleanup.entry', z3.And(keep == (z3.Select(tm.IN, t) != z3.EmptySet(I)), z3str(unbox(key)) == t,
+                                                          z3.BoolVal(isinstance(val, TermSet) and val.tm is tm and z3.eq(val.k, t))),
+                      'an entry must be kept, unchanged, iff its set is not empty', use_lemmas=False)
+            seen.append(1)
+            return CleanedMap()
+        it.comp_specs[(CLEANUP, 0)] = comp
+        it.call(it.getattr(mgr, '_cleanup_term_map'), [], {})
+        ctx.prove('C07.termmap.cleanup.assigns', len(seen) == 1 and isinstance(mgr.attrs['_term_map'], CleanedMap), use_lemmas=False)
+    ex.run(cleanup, 'termmap-cleanup')
+
+    def lemmas(ctx: Ctx):
+        """pure lemmas that lift the contracts above to the class invariant TMINV (Z3, E-matching + MBQI)"""
+        w = World(ctx)
+        mem = z3.IsMember
+        x_, t_ = z3.Const('x!L', I), z3.Const('t!L', S)
+        # (1) rebuild: from the empty map, adding every live item under every one of its words gives exactly
+        #     IN'[t] == {i in LIVE | t in WORDS(i)} and KEYS' == union of WORDS(i): TMINV holds
+        KEYS1, IN1 = z3.Const('KEYS1', z3.SetSort(S)), z3.Const('IN1', z3.ArraySort(S, z3.SetSort(I)))
+        ctx.lemma(z3.ForAll([t_, x_], mem(x_, z3.Select(IN1, t_)) == z3.And(mem(x_, w.LIVE), mem(t_, w.WORDS(x_))),
+                            patterns=[mem(x_, z3.Select(IN1, t_)), mem(t_, w.WORDS(x_))]))
+        KW = z3.Function('item_with_word', S, I)
+        ctx.lemma(z3.ForAll([t_], z3.Implies(mem(t_, KEYS1), z3.And(mem(KW(t_), w.LIVE), mem(t_, w.WORDS(KW(t_))))), patterns=[mem(t_, KEYS1)]))
+        ctx.lemma(z3.ForAll([t_, x_], z3.Implies(z3.And(mem(x_, w.LIVE), mem(t_, w.WORDS(x_))), mem(t_, KEYS1)), patterns=[mem(t_, w.WORDS(x_))]))
+        c, s_ = w.tminv(KEYS1, IN1)
+        ctx.prove('C07.termmap.lemma.rebuild-establishes-invariant', z3.And(c, s_))
+    ex.run(lemmas, 'termmap-lemmas')
+
+    def lemma_cleanup(ctx: Ctx):
+        w = World(ctx)
+        mem = z3.IsMember
+        t_ = z3.Const('t!C', S)
+        c, s_ = w.tminv()
+        ctx.lemma(c)
+        ctx.lemma(s_)
+        KEYS2 = z3.Const('KEYS2', z3.SetSort(S))
+        ctx.lemma(z3.ForAll([t_], mem(t_, KEYS2) == z3.And(mem(t_, w.KEYS), z3.Select(w.IN, t_) != z3.EmptySet(I)), patterns=[mem(t_, KEYS2), mem(t_, w.KEYS)]))
+        c2, s2 = w.tminv(KEYS2, w.IN)
+        ctx.prove('C07.termmap.lemma.cleanup-preserves-invariant', z3.And(c2, s2))
+    ex.run(lemma_cleanup, 'termmap-lemma-cleanup')
+
+    def lemma_build(ctx: Ctx):
+        """_build_term_map(d) after the items of d were replaced by the scan result (A-weak applied to the dropped ones)"""
+        w = World(ctx)
+        mem = z3.IsMember
+        x_, t_ = z3.Const('x!B', I), z3.Const('t!B', S)
+        c, s_ = w.tminv()
+        ctx.lemma(c)
+        ctx.lemma(s_)
+        OLD, NEW = z3.Const('items_before', z3.SetSort(I)), z3.Const('items_after', z3.SetSort(I))
+        LIVE2 = z3.SetUnion(z3.SetDifference(w.LIVE, OLD), NEW)
+        ctx.assume(z3.IsSubset(OLD, w.LIVE))
+        # A-weak: the dropped items OLD - NEW left every set; build: the items of NEW are under each of their words
+        KEYS2, IN2 = z3.Const('KEYS2', z3.SetSort(S)), z3.Const('IN2', z3.ArraySort(S, z3.SetSort(I)))
+        dropped = z3.SetDifference(OLD, NEW)
+        ctx.lemma(z3.ForAll([t_, x_], mem(x_, z3.Select(IN2, t_)) == z3.Or(z3.And(mem(x_, z3.Select(w.IN, t_)), z3.Not(mem(x_, dropped))),
+                                                                           z3.And(mem(x_, NEW), mem(t_, w.WORDS(x_)))),
+                            patterns=[mem(x_, z3.Select(IN2, t_)), mem(x_, z3.Select(w.IN, t_)), z3.MultiPattern(mem(x_, NEW), mem(t_, w.WORDS(x_)))]))
+        ctx.lemma(z3.ForAll([t_], z3.Implies(mem(t_, w.KEYS), mem(t_, KEYS2)), patterns=[mem(t_, w.KEYS)]))
+        ctx.lemma(z3.ForAll([t_, x_], z3.Implies(z3.And(mem(x_, NEW), mem(t_, w.WORDS(x_))), mem(t_, KEYS2)), patterns=[z3.MultiPattern(mem(x_, NEW), mem(t_, w.WORDS(x_)))]))
+        c2, s2 = w.tminv(KEYS2, IN2, LIVE2)
+        ctx.prove('C07.termmap.lemma.scan-preserves-invariant', z3.And(c2, s2))
+    ex.run(lemma_build, 'termmap-lemma-scan')
+
+
+class DirList:
+    """the list _shared_directories (abstract: unknown length)"""
+
+    def __init__(self, ctx):
+        self.ctx = ctx
+
+    def pyvc_iter(self, it, loop):
+        raise Unsupported('iteration over the shared directories without a contract')
+
+
+class CleanedMap:
+    pass
+
+
+# ---------------------------------------------------------------------------
+# scan reconciliation, statistics
+
+STATS = f'{MGR}:SharesManager.get_stats'
+
+
+def prove_scan(src_root, ex: Explorer):
+    outcomes = ['scanned', 'scan-raises', 'not-added']
+
+    def scan(ctx: Ctx):
+        """scan_directory_files(d): d.items becomes EXACTLY the scan result (for the scan of d without its child shared directories),
+        each scanned item is owned by d, then the term map is built for d and cleaned; a failing scan changes nothing"""
+        outcome = outcomes[ctx.choose(3, 'outcome')]
+        it = mk(src_root, ctx)
+        w = World(ctx)
+        install(it, ctx, w)
+        OLD, SC = z3.Const('items_before', z3.SetSort(I)), z3.Const('scanned', z3.SetSort(I))
+        d = new(it, SMODEL_SHARES, 'SharedDirectory', items=SymSet(OLD, I), absolute_path='/music', directory='/music', alias='abcde')
+        log = []
+
+        class Dirs(DirList):
+            def pyvc_contains(self, it2, item):
+                return (item is d) and outcome != 'not-added'
+        children = Stub('children of d')
+        it.hooks[f'{MGR}:SharesManager._get_child_directories'] = lambda it2, f, a, k: (log.append(('children', a[1])), children)[1]
+        it.hooks[BUILD] = lambda it2, f, a, k: log.append(('build', a[1], d.attrs['items'].term))
+        it.hooks[CLEANUP] = lambda it2, f, a, k: log.append(('cleanup',))
+        scanned = SymSet(SC, I)
+
+        def run_in_executor(it2, a, k):
+            log.append(('executor', a))
+            if outcome == 'scan-raises':
+                it2.throw('OSError', 'scan failed')
+            return scanned
+        loop_ = Stub('loop', run_in_executor=Recorder('run_in_executor', fn=run_in_executor, is_async=True))
+        it.natives['asyncio.get_running_loop'] = Native('asyncio.get_running_loop', lambda it2, a, k: loop_)
+        executor = Stub('executor')
+        mgr = new(it, MGR, 'SharesManager', _term_map=TermMap(w), _shared_directories=Dirs(ctx), executor=executor)
+        owner = []
+
+        class ScannedItem:
+            def pyvc_setattr(self, it2, name, value):
+                owner.append((name, value))
+
+        def loop(it2, node, env):
+            src = it2.eval(node.iter, env)
+            ctx.prove('C07.scan.owner.iterates-result', src is scanned, use_lemmas=False)
+            it2.assign(node.target, ScannedItem(), env)
+            it2.exec_block(node.body, env)
+        it.loop_specs[(SCANF, 0)] = loop
+        try:
+            run(it, it.getattr(mgr, 'scan_directory_files'), d)
+        except PyRaise as pr:
+            ctx.prove('C07.scan.rejects-unknown-directory', outcome == 'not-added' and pr.exc.cls.name == 'SharedDirectoryError' and not log,
+                      f'raises {pr.exc!r}', use_lemmas=False)
+            return
+        if outcome == 'not-added':
+            ctx.fail('C07.scan.rejects-unknown-directory', 'a directory that was not added is scanned', use_lemmas=False)
+            return
+        ex_calls = [e for e in log if e[0] == 'executor']
+        ok_call = False
+        if len(ex_calls) == 1:
+            a = ex_calls[0][1]
+            from pyvc.natives import PartialVal
+            from pyvc.values import PyFunc
+            ok_call = (len(a) == 2 and a[0] is executor and isinstance(a[1], PartialVal) and isinstance(a[1].fn, PyFunc) and a[1].fn.node.name == 'scan_directory'
+                       and a[1].args == [d] and a[1].kwargs == {'children': children})
+        ctx.prove('C07.scan.scans-directory-without-children', ok_call and ('children', d) in log,
+                  'the files must be scanned for d with the child shared directories of d excluded', use_lemmas=False)
+        final = d.attrs['items']
+        if outcome == 'scanned':
+            ctx.prove('C07.scan.reconcile', isinstance(final, SymSet) and final.term == SC, 'after the scan the items of the directory must be exactly the scan result',
+                      use_lemmas=False)
+            ctx.prove('C07.scan.owner', owner == [('shared_directory', d)], 'every scanned item must be owned by the scanned directory', use_lemmas=False)
+        else:
+            ctx.prove('C07.scan.failure-keeps-items', isinstance(final, SymSet) and final.term == OLD, use_lemmas=False)
+        tail = [e for e in log if e[0] in ('build', 'cleanup')]
+        ctx.prove('C07.scan.updates-term-map', len(tail) == 2 and tail[0][0] == 'build' and tail[0][1] is d and tail[1] == ('cleanup',)
+                  and ctx.valid(tail[0][2] == final.term), 'the term map must be built for the reconciled items and then cleaned', use_lemmas=False)
+    ex.run(scan, 'scan')
+
+    def stats(ctx: Ctx):
+        """get_stats(): file count == sum of |d.items|, folder count == sum of |{subdir of the items of d}| (element-wise contracts of the
+        two generator expressions and of the inner set comprehension)"""
+        it = mk(src_root, ctx)
+        dirs = DirList(ctx)
+        mgr = new(it, MGR, 'SharesManager', _shared_directories=dirs)
+        NITEMS = z3.Function('n_items', I, I)
+        NSUB = z3.Function('n_subdirs', I, I)
+        SUB = z3.Function('subdir_of', I, S)
+        dn = ctx.fresh_int('d')
+
+        class ItemSet:
+            def pyvc_len(self, it2):
+                return Sym(NITEMS(dn), 'int')
+
+            def pyvc_iter(self, it2, loop):
+                raise Unsupported('iteration over items without a contract')
+        items = ItemSet()
+        d = Stub('arbitrary shared directory', items=items)
+        got = {}
+
+        class Summed:
+            def __init__(self, kind):
+                self.kind = kind
+
+        def comp_files(it2, node, env):
+            src = it2.eval(node.generators[0].iter, env)
+            cenv = _child_env(env)
+            it2.assign(node.generators[0].target, d, cenv)
+            v = it2.eval(node.elt, cenv)
+            ctx.prove('C07.stats.files', src is dirs and not node.generators[0].ifs and len(node.generators) == 1 and ctx.valid(z3int(unbox(v)) == NITEMS(dn)),
+                      'the file count must add the number of items of every shared directory', use_lemmas=False)
+            return Summed('files')
+
+        def comp_dirs(it2, node, env):
+            src = it2.eval(node.generators[0].iter, env)
+            cenv = _child_env(env)
+            it2.assign(node.generators[0].target, d, cenv)
+            v = it2.eval(node.elt, cenv)
+            ctx.prove('C07.stats.folders', src is dirs and not node.generators[0].ifs and len(node.generators) == 1 and ctx.valid(z3int(unbox(v)) == NSUB(dn)),
+                      'the folder count must add the number of distinct sub-directories of every shared directory', use_lemmas=False)
+            return Summed('folders')
+
+        class SubdirSet:
+            def pyvc_len(self, it2):
+                return Sym(NSUB(dn), 'int')
+
+        def comp_subdirs(it2, node, env):
+            src = it2.eval(node.generators[0].iter, env)
+            x = ctx.fresh_int('x')
+            cenv = _child_env(env)
+
+            class AnItem:
+                def pyvc_getattr(self, it3, name):
+                    if name == 'subdir':
+                        return Sym(SUB(x), 'str')
+                    return Sym(z3.Function(name + '_of', I, S)(x), 'str')
+            it2.assign(node.generators[0].target, AnItem(), cenv)
+            v = it2.eval(node.elt, cenv)
+            ctx.prove('C07.stats.subdirs', src is items and not node.generators[0].ifs and isinstance(node, (ast.SetComp, ast.GeneratorExp))
+                      and ctx.valid(z3str(unbox(v)) == SUB(x)), 'the set of sub-directories of a shared directory is {item.subdir}', use_lemmas=False)
+            return SubdirSet()
+        orig_set = it.natives['builtins.set']
+        it.natives['builtins.set'] = Native('builtins.set', lambda it2, a, k: a[0] if a and isinstance(a[0], SubdirSet) else orig_set.fn(it2, a, k))
+        it.natives['builtins.sum'] = Native('builtins.sum', lambda it2, a, k: a[0] if isinstance(a[0], Summed) else (_ for _ in ()).throw(Unsupported('sum')))
+        it.comp_specs[(STATS, 0)] = comp_files
+        it.comp_specs[(STATS, 1)] = comp_dirs
+        it.comp_specs[(STATS, 2)] = comp_subdirs
+        r = it.call(it.getattr(mgr, 'get_stats'), [], {})
+        ctx.prove('C07.stats.result', isinstance(r, tuple) and len(r) == 2 and isinstance(r[0], Summed) and r[0].kind == 'folders'
+                  and isinstance(r[1], Summed) and r[1].kind == 'files', 'get_stats must return (folder count, file count)', use_lemmas=False)
+    ex.run(stats, 'stats')
+
+
+# ---------------------------------------------------------------------------
+# SearchQuery.parse / matchers_iter, the patterns, the bounded regex lemma
+
+PARSE = f'{SMODEL}:SearchQuery.parse'
+MATCHERS = f'{SMODEL}:SearchQuery.matchers_iter'
+HERE = os.path.dirname(os.path.dirname(os.path.abspath(__file__)))
+
+
+def prove_parse(src_root, ex: Explorer):
+    def parse(ctx: Ctx):
+        """SearchQuery.parse, one ARBITRARY whitespace-separated term: ignored unless it has a word character; otherwise its lower-cased
+        text goes to exactly one of the three sets, chosen by its first character ('*' wildcard, '-' exclude), without that character"""
+        it = mk(src_root, ctx)
+        HASWORD = z3.Function('has_word_char', S, B)
+        q = ctx.fresh_str('query')
+
+        class Terms:
+            def pyvc_iter(self, it2, loop):
+                raise Unsupported('iteration over query.split() without a contract')
+        terms = Terms()
+        from pyvc import strings as STR
+        orig_method = STR.str_method
+
+        def re_search(it2, a, k):
+            if unbox(a[0]) != r'[^\W_]':
+                raise Unsupported(f're.search with pattern {a[0]!r}')
+            return Sym(HASWORD(z3str(unbox(a[1]))), 'bool')
+        it.natives['re.search'] = Native('re.search', re_search)
+        INC0, EXC0, WILD0 = (z3.Const(n, z3.SetSort(S)) for n in ('INC0', 'EXC0', 'WILD0'))
+        seen = []
+
+        def loop(it2, node, env):
+            src = it2.eval(node.iter, env)
+            ctx.prove('C07.parse.iterates-terms', src is terms, use_lemmas=False)
+            obj = env.lookup('obj')
+            ctx.prove('C07.parse.starts-empty', obj.attrs['include_terms'] == set() and obj.attrs['exclude_terms'] == set() and obj.attrs['wildcard_terms'] == set()
+                      and ctx.valid(z3str(unbox(obj.attrs['query'])) == q), use_lemmas=False)
+            obj.attrs['include_terms'], obj.attrs['exclude_terms'], obj.attrs['wildcard_terms'] = SymSet(INC0, S), SymSet(EXC0, S), SymSet(WILD0, S)
+            t = ctx.fresh_str('term')
+            ctx.assume(z3.Length(t) >= 1)              # str.split() yields no empty strings
+            it2.assign(node.target, Sym(t, 'str'), env)
+            try:
+                it2.exec_block(node.body, env)
+            except ContinueEx:
+                pass
+            lt = LOWER(t)
+            rest = z3.SubString(lt, 1, z3.Length(lt) - 1)
+            inc, exc, wild = obj.attrs['include_terms'].term, obj.attrs['exclude_terms'].term, obj.attrs['wildcard_terms'].term
+            star, dash = z3.PrefixOf(z3.StringVal('*'), t), z3.PrefixOf(z3.StringVal('-'), t)
+            ctx.prove('C07.parse.classify', z3.If(z3.Not(HASWORD(lt)), z3.And(inc == INC0, exc == EXC0, wild == WILD0),
+                                             z3.If(star, z3.And(inc == INC0, exc == EXC0, wild == z3.SetAdd(WILD0, rest)),
+                                                   z3.If(dash, z3.And(inc == INC0, wild == WILD0, exc == z3.SetAdd(EXC0, rest)),
+                                                         z3.And(exc == EXC0, wild == WILD0, inc == z3.SetAdd(INC0, lt))))),
+                      'a term must be ignored without a word character and otherwise be added, lower-cased, to exactly the set its prefix selects',
+                      use_lemmas=False)
+            seen.append(obj)
+        it.loop_specs[(PARSE, 0)] = loop
+
+        def split_hook(it2, o, name):
+            return None
+        # query.split() by contract
+        qs = Sym(q, 'str')
+        it.str_method_overrides = {'split': lambda it2, o, a, k: terms if (not a and z3.eq(z3str(o), q)) else NotImplemented}
+        r = it.call(it.getattr(cls(it, SMODEL, 'SearchQuery'), 'parse'), [qs], {})
+        ctx.prove('C07.parse.returns-object', len(seen) == 1 and r is seen[0], use_lemmas=False)
+    ex.run(parse, 'parse')
+
+    def matchers(ctx: Ctx):
+        """matchers_iter: one matcher per term; include/wildcard matchers accept a path iff the (plain / wildcard) pattern of the term
+        matches it, exclude matchers iff the plain pattern does not"""
+        it = mk(src_root, ctx)
+        w = World(ctx)
+        q = new(it, SMODEL, 'SearchQuery', query='q', include_terms=SymSet(w.INC, S), exclude_terms=SymSet(w.EXC, S), wildcard_terms=SymSet(w.WILD, S))
+        yielded = []
+        it.on_yield_value = lambda it2, v, env: yielded.append(v)
+
+        class Pat:
+            def __init__(self, u, wildcard):
+                self.u, self.wildcard = u, wildcard
+
+            def pyvc_getattr(self, it2, name):
+                if name == 'search':
+                    return Native('search', lambda it3, a, k: Sym((w.MW if self.wildcard else w.MP)(self.u, z3str(unbox(a[0]))), 'bool'))
+                raise Unsupported(f'Pattern.{name}')
+
+        def ctp(it2, f, a, k):
+            wc = k.get('wildcard', a[1] if len(a) > 1 else False)
+            return Pat(z3str(unbox(a[0])), unbox(wc))
+        it.hooks[f'{SUTIL}:create_term_pattern'] = ctp
+        sets = {0: ('include', w.INC), 1: ('wildcard', w.WILD), 2: ('exclude', w.EXC)}
+        seen = []
+
+        def mkloop(ordinal):
+            def loop(it2, node, env):
+                kind, st = sets[ordinal]
+                src = it2.eval(node.iter, env)
+                u = ctx.fresh_str('u')
+                ctx.assume(z3.IsMember(u, st))
+                it2.assign(node.target, Sym(u, 'str'), env)
+                n0 = len(yielded)
+                it2.exec_block(node.body, env)
+                p = ctx.fresh_str('path')
+                ok = isinstance(src, SymSet) and z3.eq(src.term, st) and len(yielded) == n0 + 1
+                val = None
+                if ok:
+                    val = it2.truth(it2.call(yielded[-1], [Sym(p, 'str')], {}))
+                want = {'include': w.MP(u, p), 'wildcard': w.MW(u, p), 'exclude': z3.Not(w.MP(u, p))}[kind]
+                ctx.prove(f'C07.matchers.{kind}', ok and ctx.valid(val == want), f'the {kind} terms must each yield one matcher with the stated meaning', use_lemmas=False)
+                seen.append(kind)
+            return loop
+        for o in range(3):
+            it.loop_specs[(MATCHERS, o)] = mkloop(o)
+        it.inline(it.class_attr(cls(it, SMODEL, 'SearchQuery'), 'matchers_iter'), [q], {})
+        ctx.prove('C07.matchers.all-three-kinds', sorted(seen) == ['exclude', 'include', 'wildcard'], use_lemmas=False)
+    ex.run(matchers, 'matchers')
+
+
+def prove_lemma_bounded(src_root, ex: Explorer, tier):
+    def lemma(ctx: Ctx):
+        try:
+            r = subprocess.run(['/venv/bin/python', os.path.join(HERE, 'tools', 'regex_lemma.py'), tier], capture_output=True, text=True, timeout=3000,
+                               env=dict(os.environ, PYTHONPATH=src_root))
+            out = json.loads([ln for ln in r.stdout.splitlines() if ln.startswith('{')][-1])
+        except Exception as e:       # noqa
+            raise Unsupported(f'regex lemma script failed: {e!r}')
+        ctx.ghost['lemma'] = out
+        ctx.prove('C07.A-re.lemma[bounded]', bool(out.get('ok')), out.get('counterexample') or '', use_lemmas=False)
+    ex.run(lemma, 'regex-lemma')
+
+
 def items(src_root, tier):
-    return [('query', None)]
+    return [('query', None), ('termmap', None), ('scan', None), ('parse', None), ('lemma', None)]
 
 
 def run_item(src_root, item, tier):
@@ -838,7 +1337,10 @@ def run_item(src_root, item, tier):
     ex = Explorer()
     kind, arg = item
     try:
-        {'query': prove_query}[kind](src_root, ex)
+        if kind == 'lemma':
+            prove_lemma_bounded(src_root, ex, tier)
+        else:
+            {'query': prove_query, 'termmap': prove_termmap, 'scan': prove_scan, 'parse': prove_parse}[kind](src_root, ex)
     except Unsupported as e:
         res.errors.append(f'{kind}: unsupported: {e}')
     collect(res, ex)
